@@ -92,8 +92,10 @@ class C07(Cfg):
                   "the merge is monotone (every stored entry and placing reference is in the accepted definition, unchanged), every entry that is new to a list "
                   "passed the entitlement test of its list (admin at the entry's date in the room as extended by the earlier new admin entries; admin or user admin of the "
                   "group for users), a room not seen before is accepted only if every entry's author is an admin at the entry's date in the room parsed from the whole "
-                  "candidate, a refused candidate changes nothing. For the code as written the statement 'authored for that room and that place' is refuted by "
-                  "decide-checked witnesses (placing references only signature-checked: cross-list and cross-room replay; room row replaced unchecked; user-admin entries of a "
+                  "candidate, a refused candidate changes nothing; the decisions clause is a theorem too (C07_decisions_past: at every date before the earliest new entry every decision "
+                  "of the installed room is the stored room's; C07_decisions_exact: decisions are a function of the set of entries) under the hypothesis that equal key and date mean "
+                  "equal payload, which is exactly what the same-date-reorder witness violates. For the code as written the statement 'authored for that room and that place' is refuted by "
+                  "decide-checked witnesses about explicit switch values (placing references only signature-checked: cross-list, cross-room and whole-group replay; room row replaced unchecked; user-admin entries of a "
                   "new group unchecked; same-date entries re-ordered) and proved under an explicit guard. The model is tied to /repo by running the real services and the "
                   "compiled model on structured adversarial candidates and diffing verdicts, decision matrices of the loaded room and stored rows.")
     level_note = ("Trusted: Lean kernel (+propext, Classical.choice, Quot.sound), the hand-written model and harness, SQLite, Ed25519/blake3. "
